@@ -154,10 +154,21 @@ func (bf *boundsFn) bufTransfer(b *ssa.BasicBlock, in bufState) bufState {
 			}
 			recv, m, ok := bufRecv(x)
 			if !ok {
-				// any other call that receives a tracked buffer loses track
-				for _, a := range x.Common().Args {
+				// any other call that receives a tracked buffer loses track;
+				// what was left at that moment is remembered for the callee
+				// (premise of a helper that reads without checking again)
+				for i, a := range x.Common().Args {
 					k := sx(a)
-					if _, tracked := st[k]; tracked {
+					if rem, tracked := st[k]; tracked {
+						if rem != nil {
+							if bf.bufAtCall == nil {
+								bf.bufAtCall = map[ssa.CallInstruction]map[int]aff{}
+							}
+							if bf.bufAtCall[x] == nil {
+								bf.bufAtCall[x] = map[int]aff{}
+							}
+							bf.bufAtCall[x][i] = *rem
+						}
 						st[k] = nil
 					}
 				}
@@ -314,4 +325,47 @@ func (bf *boundsFn) bufWriteFacts() {
 			}
 		}
 	}
+}
+
+// bufParamLower: a lower bound for the unread bytes of the *bytes.Buffer
+// parameter i of fn at entry: the largest constant c ≤ 64 such that at every
+// call site the caller's tracked remaining count is provably ≥ c (0 when a
+// call site has lost track, or fn has no known callers).
+func (B *Bounds) bufParamLower(fn *ssa.Function, i int) int64 {
+	key := fmt.Sprintf("%s#%d", fn, i)
+	if B.bufLower == nil {
+		B.bufLower = map[string]int64{}
+	}
+	if v, ok := B.bufLower[key]; ok {
+		return v
+	}
+	B.bufLower[key] = 0 // while being computed (recursion): nothing is known
+	callers := B.callers[fn]
+	if len(callers) == 0 || B.isEntry(fn) || B.addrTkn[fn] {
+		return 0 // callers outside the library, or calls through a function value
+	}
+	lo := int64(64)
+	for _, ci := range callers {
+		cf := B.of(ci.Parent())
+		rem, ok := cf.bufAtCall[ci][i]
+		if !ok {
+			lo = 0
+			break
+		}
+		c := int64(0)
+		for k := lo; k >= 1; k-- {
+			if cf.proveAt(rem.add(affConst(k), -1), ci.Block(), ci) {
+				c = k
+				break
+			}
+		}
+		if c < lo {
+			lo = c
+		}
+		if lo == 0 {
+			break
+		}
+	}
+	B.bufLower[key] = lo
+	return lo
 }
